@@ -22,7 +22,16 @@ RULE = ("seven routines, one case = one call with explicit arguments and explici
         "preserve_degree, seed None / 0 / other. ARGUMENT TYPES vary independently: ints as Python / numpy int64 / int32, "
         "counts also as 3.0 where the routine converts them, p as int 0/1 / float / numpy float64 / float32, "
         "maps as dict / OrderedDict / read-only proxy, activity vectors as list / tuple / numpy float64, int "
-        "arrays / dict node->activity / Fractions. After every inplace=False call the RESULT is mutated (in-place "
+        "arrays / dict node->activity / Fractions / bools / Decimals / numpy scalars. VALUE TYPES (30 % of the valid cases, "
+        "`vals`: slot -> object): every numeric argument also as bool, numpy bool, 0-d array, float (integral or not), numpy "
+        "float64 / float32, Fraction, Decimal, numeric str / bytes - with the meaning the unchanged code gives it (index: "
+        "n, N, time, sizes, orders, num_shuffles; int(): counts of scale_free_hypergraph, 3.7 and ' 3 ' mean 3; passes of "
+        "`while len(..) < x`: counts of random_hypergraph and k of add_random_edges, 2.5 means 3; value: p as Fraction / "
+        "Decimal with any denominator incl. a/m for the m hyperedges of the size, corr_target, scales; truthiness: inplace, "
+        "correlated, preserve_degree; seeds as float / str / bytes / bool) or, in 15 % of them, one object the unchanged "
+        "code refuses (float n, float size, str count for a loop, '3.0' for int(), numpy int for random.seed, float / "
+        "negative / 2**32 for np.random.seed: the call must raise - correspondence only). A few large requests (n up to "
+        "160, 140 hyperedges per size; 22-26 hyperedges of one size for the shuffles). After every inplace=False call the RESULT is mutated (in-place "
         "shuffle, add / remove hyperedge, metadata) and the argument is inspected again. Plus a malformed stream "
         "(both/neither of order and size, p outside [0,1], size larger than the node set, invalid scale-free argument "
         "combinations, activity vector too short, order above N). "
@@ -35,7 +44,8 @@ ASSUMPTIONS = [
     "requests to the rejection loops are feasible (count <= C(n,size)); termination with probability one is not proved, the harness bounds every call by an alarm",
     "labels are mapped to their rank in sorted order (labels of one hypergraph are mutually comparable); weights are small integers; metadata are tokens {'k': t}",
     "HOADmodel: admissible = every activity vector has AT LEAST N entries (surplus ignored) and order <= N; shorter vectors / larger orders are compared with the model's `raised` only; activities are dyadic so that `act > random()` is exact",
-    "p is dyadic so that int(p * num_edges) equals the exact floor",
+    "p is a dyadic float or an exact rational (Fraction / Decimal / bool) so that int(p * num_edges) equals the exact floor",
+    "value types: which objects a routine takes and what they mean was measured on the unchanged tree with Python 3.12 / NumPy 2.5 (operator.index, int(), `len < x`, random.seed, np.random.seed are Python's / NumPy's own); the harness recomputes the meaning with plain Python, the Lean model (C14Raw.lean) decides it from a value-typed token",
     "node / incidence metadata are not in the model (node metadata are checked by the oracles only)",
     "object identity: hg.copy() yields a new object (model: finishObj allocates a fresh id); its depth is checked by mutating the result",
 ]
@@ -122,6 +132,222 @@ def mk_map(items, kind):
     if kind == "proxy":
         return types.MappingProxyType(d)
     return d
+
+
+# ---- argument VALUE TYPES ----------------------------------------------------------------------------------------
+# A case may carry `vals`: slot -> value descriptor.  A slot names one numeric argument ("n", "counts.0", "sizes.1",
+# "k", "p", "seed", ..); its descriptor says WHICH PYTHON OBJECT the caller hands in for it.  The canonical integers of
+# the case (case["counts"], ..) are the numbers the UNCHANGED code works with for these objects (measured on the tree:
+# notes/C14.md, round d); the Lean model (`Hgxv/Model/C14Raw.lean`, driver commands ending in R) receives the objects as
+# value-typed tokens and decides itself what they mean or that the call raises.
+INTLIKE = ("py", "np64", "np32", "npu8", "arr0")     # Num.int : have __index__
+REALS = ("float", "np64f", "np32f", "frac", "dec", "npbool")   # Num.real: no __index__, convert / compare by value
+TEXTS = ("str", "bytes")                              # Num.text: int() parses them, `<` with a number raises
+
+
+def mk_val(vd):
+    """value descriptor (JSON-able list) -> a FRESHLY built Python object"""
+    import decimal
+    import numpy as np
+    k = vd[0]
+    if k == "py":
+        return int(str(vd[1]))
+    if k == "np64":
+        return np.int64(vd[1])
+    if k == "np32":
+        return np.int32(vd[1])
+    if k == "npu8":
+        return np.uint8(vd[1])
+    if k == "arr0":
+        return np.array(vd[1])
+    if k == "bool":
+        return bool(vd[1])
+    if k == "npbool":
+        return np.bool_(vd[1])
+    if k == "float":
+        return float(repr(float(vd[1])))
+    if k == "np64f":
+        return np.float64(vd[1])
+    if k == "np32f":
+        return np.float32(vd[1])
+    if k == "frac":
+        return Fraction(vd[1], vd[2])
+    if k == "dec":
+        return decimal.Decimal(vd[1])
+    if k == "str":
+        return "".join(list(vd[1]))
+    if k == "bytes":
+        return vd[1].encode()
+    if k == "truth":
+        return {"True": True, "False": False, "1": 1, "0": 0, "np1": np.bool_(True), "np0": np.bool_(False),
+                "yes": "yes", "empty": "", "none": None, "2.5": 2.5, "0.0": 0.0, "list": [0], "nolist": []}[vd[1]]
+    raise ValueError("unknown value descriptor " + repr(vd))
+
+
+def exact(vd):
+    """exact rational value of a numeric descriptor (None for text)"""
+    import decimal
+    import numpy as np
+    k = vd[0]
+    if k in INTLIKE or k in ("bool", "npbool"):
+        return Fraction(int(vd[1]))
+    if k == "float" or k == "np64f":
+        return Fraction(float(vd[1]))
+    if k == "np32f":
+        return Fraction(float(np.float32(vd[1])))
+    if k == "frac":
+        return Fraction(vd[1], vd[2])
+    if k == "dec":
+        return Fraction(decimal.Decimal(vd[1]))
+    return None
+
+
+def num_tok(vd):
+    """the object as the Lean model receives it (`Num`): i<int> | b0/b1 | q<num>/<den> | s<int> / sx.  For text the
+    integer literal is read by Python's own int() - the language, not the library."""
+    k = vd[0]
+    if k in INTLIKE:
+        return "i%d" % int(vd[1])
+    if k == "bool":
+        return "b%d" % int(bool(vd[1]))
+    if k in TEXTS:
+        try:
+            return "s%d" % int(mk_val(vd))
+        except ValueError:
+            return "sx"
+    fr = exact(vd)
+    return "q%d/%d" % (fr.numerator, fr.denominator)
+
+
+def py_index(vd):
+    """what range(x) / random.sample(pop, x) / [None] * x see: operator.index (None = TypeError)"""
+    import operator
+    try:
+        return operator.index(mk_val(vd))
+    except TypeError:
+        return None
+
+
+def py_int(vd):
+    """int(x) (None = it raises)"""
+    try:
+        return int(mk_val(vd))
+    except (TypeError, ValueError, OverflowError):
+        return None
+
+
+def py_loop(vd, cap=200):
+    """number of passes of `acc = []; while len(acc) < x: acc.append(..)`, by running exactly that loop (None = the
+    test raises or the loop does not stop within `cap` passes)"""
+    x = mk_val(vd)
+    acc = []
+    try:
+        while len(acc) < x:
+            acc.append(0)
+            if len(acc) > cap:
+                return None
+    except TypeError:
+        return None
+    return len(acc)
+
+
+def seed_refused(obj, source):
+    """does the seeding function of the source refuse this object?  Asked of a PRIVATE generator of the same kind
+    (random.Random / np.random.RandomState), never of the library"""
+    import numpy as np
+    if obj is None:
+        return False
+    try:
+        if source == "py":
+            random.Random().seed(obj)
+        else:
+            np.random.RandomState().seed(obj)
+        return False
+    except (TypeError, ValueError):
+        return True
+
+
+def slot_val(case, slot, fallback):
+    """the object for an argument slot: from `vals` when the case retypes the slot, else `fallback()`"""
+    vd = (case.get("vals") or {}).get(slot)
+    return mk_val(vd) if vd is not None else fallback()
+
+
+def slot_tok(case, slot, canonical):
+    vd = (case.get("vals") or {}).get(slot)
+    return num_tok(vd) if vd is not None else "i%d" % int(canonical)
+
+
+def slot_meaning(case, slot, canonical, meaning):
+    """the integer the unchanged code works with for this slot, recomputed by plain Python (`meaning`: py_index /
+    py_int / py_loop) when the slot is retyped; the canonical value of the case otherwise / when Python refuses"""
+    vd = (case.get("vals") or {}).get(slot)
+    if vd is None:
+        return canonical
+    m = meaning(vd)
+    return canonical if m is None else m
+
+
+def toks(case, slot, canon_list):
+    return ",".join(slot_tok(case, f"{slot}.{i}", c) for i, c in enumerate(canon_list)) if canon_list else "-"
+
+
+def real_near(rng, lo, hi, kinds=("float", "float", "np64f", "np32f", "frac", "frac", "dec")):
+    """a real-typed descriptor with a value in the half-open interval (lo, hi] (hi an integer)"""
+    kind = rng.choice(kinds)
+    if kind in ("float", "np64f"):
+        d = rng.choice([0.0, 0.0, 0.25, 0.5, 0.3, 0.65, 0.999])
+        return [kind, hi - d * (hi - lo)]
+    if kind == "np32f":
+        return [kind, hi - rng.choice([0.0, 0.25, 0.5, 0.75]) * (hi - lo)]
+    if kind == "frac":
+        den = rng.choice([1, 2, 3, 7, 10])
+        num = hi * den - rng.randint(0, den - 1) * (hi - lo)
+        return ["frac", int(num), den]
+    d = rng.choice(["0", "0.1", "0.5", "0.75"])
+    import decimal
+    return ["dec", str(decimal.Decimal(hi) - decimal.Decimal(d) * (hi - lo))]
+
+
+def pick_val(rng, role, c, rej=False, key=False):
+    """a value descriptor for an argument whose MEANING under the unchanged code is the integer `c`
+    (rej: a descriptor of the same number that the unchanged code refuses).  key: the object is a dict key (hashable).
+    roles: index (range, random.sample), npsize (a NumPy size), loop (`while len(acc) < x`), intconv (`int(x)`),
+    samekey (only compared / hashed as a dict key)"""
+    ints = [["py", c], ["np64", c], ["np32", c]] + ([["npu8", c]] if 0 <= c < 256 else []) + ([] if key else [["arr0", c]])
+    bools = [["bool", c]] if c in (0, 1) else []
+    npbools = [["npbool", c]] if c in (0, 1) else []
+    # (a Decimal cannot be compared with a numpy integer - TypeError - so it is no dict key next to numpy keys)
+    integral_reals = [["float", float(c)], ["np64f", float(c)], ["np32f", float(c)], ["frac", c, 1]] + ([] if key else [["dec", str(c)]])
+    if role == "index":
+        pool = (integral_reals + npbools + ([] if key else [["str", str(c)]])) if rej else (ints + bools * 3)
+    elif role == "npsize":
+        pool = (integral_reals + bools * 4 + npbools) if rej else ints
+    elif role == "samekey":
+        pool = ints + bools + integral_reals
+    elif role == "loop":
+        if rej:
+            pool = [["str", str(c)], ["str", str(c)], ["bytes", str(c)]]
+        elif c >= 1:
+            pool = ints + bools + npbools + [real_near(rng, c - 1, c) for _ in range(6)]
+        else:
+            pool = ints + bools + npbools + [["float", 0.0], ["float", -0.0], ["float", -0.5], ["py", -2], ["np64", -1],
+                                             ["frac", -7, 2], ["dec", "-0.1"], ["np64f", -3.0], ["np32f", 0.0]]
+    elif role == "intconv":
+        if rej:
+            pool = [["str", f"{c}.0"], ["str", "abc"], ["str", ""], ["str", f"{c}e0"],
+                    ["str", f"-{c + 1}"], ["float", -1.0 - c], ["py", -1 - c], ["bytes", "x"]]
+        else:
+            texts = [["str", str(c)], ["str", f" {c} "], ["str", f"+{c}"], ["str", f"0{c}"], ["str", f"{c}\n"],
+                     ["bytes", str(c)]]
+            # int() truncates toward zero: every real in [c, c+1) means c; for c = 0 also (-1, 0]
+            reals = [real_near(rng, c + 1, c) for _ in range(6)] + [["float", float(c)], ["np64f", c + 0.5]]
+            if c == 0:
+                reals += [["float", -0.5], ["float", -0.99], ["frac", -1, 3], ["dec", "-0.9"]]
+            pool = ints + bools + npbools + texts + reals
+    else:
+        raise ValueError(role)
+    return rng.choice(pool) if pool else None
 
 
 def lab(x):
@@ -412,90 +638,117 @@ def edge_ok(e, n):
 
 def check_random(ctx, drv, case, secs=8.0):
     from hypergraphx.generation.random import random_hypergraph, random_uniform_hypergraph
-    n, sizes, counts, seed, uniform = case["n"], case["sizes"], case["counts"], case["seed"], case["uniform"]
+    n, sizes, seed, uniform = case["n"], case["sizes"], case["seed"], case["uniform"]
+    # the number of samples per size is the number of passes of `while len(edges) < count` (a retyped count: 2.5 -> 3)
+    counts = [slot_meaning(case, f"counts.{i}", c, py_loop) for i, c in enumerate(case["counts"])]
     req = dict(zip(sizes, counts))
     kinds = case.get("kinds", {})
+    vals = case.get("vals") or {}
+    type_rej = bool(case.get("type_rej"))
+
+    def mk_seed():
+        return slot_val(case, "seed", lambda: seed)
 
     def call():
-        # the arguments are built anew for every call: ints as Python / numpy ints, the map as dict / OrderedDict / proxy
-        nn = mk_int(n, kinds.get("n"))
+        # the arguments are built anew for every call: ints as Python / numpy ints, the map as dict / OrderedDict / proxy;
+        # retyped slots (`vals`) as the object their descriptor names
+        nn = slot_val(case, "n", lambda: mk_int(n, kinds.get("n")))
+        ks = [slot_val(case, f"sizes.{i}", lambda s=s: mk_int(s, kinds.get("key"))) for i, s in enumerate(sizes)]
+        cs = [slot_val(case, f"counts.{i}", lambda c=c: mk_int(c, kinds.get("count"))) for i, c in enumerate(case["counts"])]
+        sd = mk_seed()
         if uniform:
-            a = (nn, mk_int(sizes[0], kinds.get("key")), mk_int(counts[0], kinds.get("count")), seed)
+            a = (nn, ks[0], cs[0], sd)
             if kinds.get("kw"):
                 return random_uniform_hypergraph(num_nodes=a[0], size=a[1], num_edges=a[2], seed=a[3])
             return random_uniform_hypergraph(*a)
-        m = mk_map([(mk_int(s, kinds.get("key")), mk_int(c, kinds.get("count"))) for s, c in zip(sizes, counts)],
-                   kinds.get("map"))
+        m = mk_map(list(zip(ks, cs)), kinds.get("map"))
         if kinds.get("kw"):
-            return random_hypergraph(num_nodes=nn, num_edges_by_size=m, seed=seed)
-        if seed is None and kinds.get("omit_seed"):
+            return random_hypergraph(num_nodes=nn, num_edges_by_size=m, seed=sd)
+        if sd is None and kinds.get("omit_seed"):
             return random_hypergraph(nn, m)
-        return random_hypergraph(nn, m, seed)
+        return random_hypergraph(nn, m, sd)
 
     def observe(h):
         return (sorted(plain(h.get_nodes())), sorted(tuple(plain(e)) for e in h.get_edges()))
 
+    seed = mk_seed()                         # the seed VALUE (an int unless the slot is retyped: float, str, bytes, bool)
+    seed_rej = seed_refused(seed, "py")      # Python's own random.seed refuses the type (numpy ints, Fractions)
+    type_rej = type_rej or seed_rej
     ambient(*case["ambient"])
     with recorder() as rec:
         st, h = limited(call, secs)
     log = rec.log
-    admissible = all(c <= 0 or s <= n for s, c in req.items())
-    key = ("random", n, tuple(sizes), tuple(counts), seed, uniform, repr(sorted(kinds.items())))
+    admissible = all(c <= 0 or s <= n for s, c in req.items()) and not type_rej
+    rline = f"randomR {slot_tok(case, 'n', n)} {toks(case, 'sizes', sizes)} {toks(case, 'counts', case['counts'])} "
+    key = ("random", n, tuple(sizes), tuple(counts), repr(seed), uniform, repr(sorted(kinds.items())), repr(sorted(vals.items())))
     if st == "timeout":
         return "timeout"
     if st == "exc":
         if admissible:
             ctx.violation(case, f"random_hypergraph raised on admissible arguments: {h}")
         ctx.case(key + ("rej",), False, sample=case)
-        if drv:
-            a = drv.ask(f"random {n} {hgxv.enc_list(sizes)} {hgxv.enc_list(counts)} -")
+        if drv and not seed_rej:
+            a = drv.ask(rline + "-") if vals else drv.ask(f"random {n} {hgxv.enc_list(sizes)} {hgxv.enc_list(counts)} -")
             if a != "rej" and not admissible:
                 ctx.disagree(case, f"implementation rejects, model answers {a!r}")
         return
+    if seed_rej:
+        ctx.disagree(case, f"random.seed refuses a seed of this type, the implementation accepted {seed!r}")
+        return
     nodes, edges = observe(h)
     # ---- property oracles
-    if nodes != list(range(n)) or not all(type(x) is int for x in nodes):
-        ctx.violation(case, f"nodes {nodes} are not exactly 0..{n-1}")
-    for e in edges:
-        if len(e) not in req or req[len(e)] < 1:
-            ctx.violation(case, f"hyperedge {e} has a size that was not requested")
-        if not edge_ok(e, n):
-            ctx.violation(case, f"hyperedge {e} has repeated nodes or nodes outside 0..{n-1}")
-    for s, c in req.items():
-        k = sum(1 for e in edges if len(e) == s)
-        if k > max(c, 0) or (c >= 1 and k < 1):
-            ctx.violation(case, f"{k} hyperedges of size {s}, requested {c}")
-    if seed is not None:
-        # the caller goes on working with the first result; the second call with the same seed must not hand out (parts
-        # of) the same object again
-        limited(lambda: (h.add_node("poke"), h.add_edge(("poke", "poke2")), h.remove_edges(list(h.get_edges())[:1])), 4.0)
-        a2 = case["ambient"]
-        ambient(a2[0] + 17, a2[1] + 29)
-        st2, h2 = limited(call, secs)
-        if st2 != "ok" or observe(h2) != (nodes, edges):
-            ctx.violation(case, f"same seed {seed}, different ambient RNG state: second run gives "
-                                f"{observe(h2) if st2 == 'ok' else st2}, first {(nodes, edges)}")
+    if not type_rej:
+        if nodes != list(range(n)) or not all(type(x) is int for x in nodes):
+            ctx.violation(case, f"nodes {nodes} are not exactly 0..{n-1}")
+        for e in edges:
+            if len(e) not in req or req[len(e)] < 1:
+                ctx.violation(case, f"hyperedge {e} has a size that was not requested")
+            if not edge_ok(e, n):
+                ctx.violation(case, f"hyperedge {e} has repeated nodes or nodes outside 0..{n-1}")
+        for s, c in req.items():
+            k = sum(1 for e in edges if len(e) == s)
+            if k > max(c, 0) or (c >= 1 and k < 1):
+                ctx.violation(case, f"{k} hyperedges of size {s}, requested {c}"
+                                    + (f" (as {vals})" if vals else ""))
+        if seed is not None:
+            # the caller goes on working with the first result; the second call with the same seed must not hand out (parts
+            # of) the same object again
+            limited(lambda: (h.add_node("poke"), h.add_edge(("poke", "poke2")), h.remove_edges(list(h.get_edges())[:1])), 4.0)
+            a2 = case["ambient"]
+            ambient(a2[0] + 17, a2[1] + 29)
+            st2, h2 = limited(call, secs)
+            if st2 != "ok" or observe(h2) != (nodes, edges):
+                ctx.violation(case, f"same seed {seed!r}, different ambient RNG state: second run gives "
+                                    f"{observe(h2) if st2 == 'ok' else st2}, first {(nodes, edges)}")
     # ---- correspondence
     draws = [r for (src, name, a, k, r) in log if (src, name) == ("py", "sample")]
     bad = unexpected_sources(log, {("py", "sample"), ("py", "seed")})
     seeded = [a for (src, name, a, k, r) in log if (src, name) == ("py", "seed")]
     ctx.case(key + (tuple(map(tuple, draws)),), len(sizes) >= 2 or len(edges) < sum(max(c, 0) for c in counts), sample=case)
     ctx.count("random_cases")
-    ctx.count("random_seed0", 1 if seed == 0 else 0)
+    ctx.count("random_seed0", 1 if seed == 0 and type(seed) is int else 0)
     ctx.count("random_numpy_args", 1 if any(str(v).startswith("np") for v in kinds.values()) else 0)
+    ctx.count("retyped_" + case["routine"], 1 if vals else 0)
     if drv is None:
         return
     if bad:
         ctx.disagree(case, f"draws from sources the model does not use: {sorted(set(bad))}")
-    if (seed is not None and seeded != [(seed,)]) or (seed is None and seeded):
-        ctx.disagree(case, f"random.seed calls {seeded} for seed={seed}")
+    if (seed is not None and [(type(a[0]), a) for a in seeded] != [(type(seed), (seed,))]) or (seed is None and seeded):
+        ctx.disagree(case, f"random.seed calls {seeded} for seed={seed!r}")
     groups, pos = [], 0
     for c in counts:
         groups.append(draws[pos:pos + max(c, 0)])
         pos += max(c, 0)
     want = " ".join(["0", hgxv.enc_list(nodes), hgxv.enc_lists(edges), hgxv.enc_list([1] * len(edges)),
                      hgxv.enc_list([0] * len(edges))])
-    mseed = None if seed is None else abs(seed) % 10 ** 9      # the model only distinguishes seeded / not seeded
+    if vals:
+        # the model receives the objects as the caller holds them and decides what they mean
+        a = drv.ask(rline + hgxv.enc_listss(groups))
+        if a != want:
+            ctx.disagree(case, f"randomR (value-typed arguments {vals}): model {a!r}, implementation {want!r}")
+        if type_rej:
+            return
+    mseed = None if seed is None else (abs(seed) % 10 ** 9 if type(seed) is int else 1)   # the model: seeded / not seeded
     got = drv.batch([f"random {n} {hgxv.enc_list(sizes)} {hgxv.enc_list(counts)} {hgxv.enc_listss(groups)}",
                      f"randomM {n} {hgxv.enc_list(sizes)} {hgxv.enc_list(counts)} {opt(mseed)} {hgxv.enc_lists(draws)}"])
     if got[0] != want:
@@ -516,6 +769,11 @@ def gen_random(rng, malformed=False):
     counts = [rng.choice([0, 1, 1, 2, 3, 4, 6]) for _ in sizes]
     if n == 0:
         counts = [0 for _ in sizes]
+    if not malformed and rng.random() < 0.02:
+        # SIZE: a large request
+        n = rng.randint(40, 160)
+        sizes = rng.sample([1, 2, 3, 4, 7], 1 if uniform else rng.randint(1, 3))
+        counts = [rng.randint(20, 140) for _ in sizes]
     if malformed:
         sizes[0] = n + rng.randint(1, 2)
         counts[0] = max(1, counts[0])
@@ -535,26 +793,36 @@ def gen_random(rng, malformed=False):
 def check_scale_free(ctx, drv, case, secs=8.0):
     import numpy as np
     from hypergraphx.generation.scale_free import scale_free_hypergraph
-    n, sizes, counts, skeys, scales = case["n"], case["sizes"], case["counts"], case["scale_keys"], case["scales"]
+    n, sizes, skeys, scales = case["n"], case["sizes"], case["scale_keys"], case["scales"]
+    # "exactly the requested number" is int(count): line 55 of the routine stores int(edges_by_size[k]) back
+    counts = [slot_meaning(case, f"counts.{i}", c, py_int) for i, c in enumerate(case["counts"])]
     kinds = case.get("kinds", {})
+    vals = case.get("vals") or {}
+    type_rej = bool(case.get("type_rej"))
     kw0 = dict(case["kwargs"])
     ebs = dict(zip(sizes, counts))
 
     def call():
         # arguments built anew: sizes / counts / n as Python or numpy ints (counts also 3.0 / '3': the routine applies
-        # int(..)), the scale map with its keys in ITS OWN order and int / float / numpy scales
-        e = mk_map([(mk_int(s, kinds.get("key")), mk_count(c, kinds.get("count"))) for s, c in zip(sizes, counts)],
-                   kinds.get("map"))
-        sc = mk_map([(mk_int(k, kinds.get("skey")), mk_float(v, kinds.get("scale"))) for k, v in zip(skeys, scales)],
-                    kinds.get("smap"))
+        # int(..)), the scale map with its keys in ITS OWN order and int / float / numpy scales; retyped slots (`vals`)
+        # as the object their descriptor names
+        e = mk_map([(slot_val(case, f"sizes.{i}", lambda s=s: mk_int(s, kinds.get("key"))),
+                     slot_val(case, f"counts.{i}", lambda c=c: mk_count(c, kinds.get("count"))))
+                    for i, (s, c) in enumerate(zip(sizes, case["counts"]))], kinds.get("map"))
+        sc = mk_map([(slot_val(case, f"skeys.{j}", lambda k=k: mk_int(k, kinds.get("skey"))),
+                      slot_val(case, f"scales.{j}", lambda v=v: mk_float(v, kinds.get("scale"))))
+                     for j, (k, v) in enumerate(zip(skeys, scales))], kinds.get("smap"))
         kw = dict(kw0)
         if kw.get("corr_target") is not None:
-            kw["corr_target"] = mk_float(kw["corr_target"], kinds.get("target"))
+            kw["corr_target"] = slot_val(case, "target", lambda: mk_float(kw["corr_target"], kinds.get("target")))
         if "num_shuffles" in kw:
-            kw["num_shuffles"] = mk_int(kw["num_shuffles"], kinds.get("shuffles"))
+            kw["num_shuffles"] = slot_val(case, "shuffles", lambda: mk_int(kw["num_shuffles"], kinds.get("shuffles")))
+        if "correlated" in kw:
+            kw["correlated"] = slot_val(case, "correlated", lambda: kw["correlated"])
+        nn = slot_val(case, "n", lambda: mk_int(n, kinds.get("n")))
         if kinds.get("positional") and set(kw) == {"correlated", "corr_target", "num_shuffles"}:
-            return scale_free_hypergraph(mk_int(n, kinds.get("n")), e, sc, kw["correlated"], kw["corr_target"], kw["num_shuffles"])
-        return scale_free_hypergraph(mk_int(n, kinds.get("n")), e, sc, **kw)
+            return scale_free_hypergraph(nn, e, sc, kw["correlated"], kw["corr_target"], kw["num_shuffles"])
+        return scale_free_hypergraph(nn, e, sc, **kw)
 
     kw = kw0
     ambient(*case["ambient"])
@@ -564,16 +832,22 @@ def check_scale_free(ctx, drv, case, secs=8.0):
     correlated = kw.get("correlated", True)
     target = kw.get("corr_target", None)
     shuffles = kw.get("num_shuffles", 0)
-    valid = case["valid"]
-    line = (f"scalefree {n} {hgxv.enc_list(sizes)} {hgxv.enc_list(counts)} {hgxv.enc_list(skeys)} {int(correlated)} "
-            f"{'none' if target is None else hgxv.enc_num(Fraction(target))} {shuffles} ")
-    key = ("sf", n, tuple(sizes), tuple(counts), tuple(skeys), correlated, target, shuffles, repr(sorted(kinds.items())))
+    valid = case["valid"] and not type_rej
+    tail = (f"{hgxv.enc_list(skeys)} {int(correlated)} {'none' if target is None else hgxv.enc_num(Fraction(target))} ")
+    if vals:
+        # the model receives the objects as the caller holds them and decides what they mean / that the call raises
+        line = (f"scalefreeR {slot_tok(case, 'n', n)} {toks(case, 'sizes', sizes)} {toks(case, 'counts', case['counts'])} "
+                + tail + f"{slot_tok(case, 'shuffles', shuffles)} ")
+    else:
+        line = f"scalefree {n} {hgxv.enc_list(sizes)} {hgxv.enc_list(counts)} " + tail + f"{shuffles} "
+    key = ("sf", n, tuple(sizes), tuple(counts), tuple(skeys), correlated, target, shuffles, repr(sorted(kinds.items())),
+           repr(sorted(vals.items())))
     if st == "timeout":
         return "timeout"
     if st == "exc":
         if valid:
             ctx.violation(case, f"scale_free_hypergraph raised on admissible arguments"
-                                f"{' (defaults)' if not kw else ''}: {h}")
+                                f"{' (defaults)' if not kw else ''}{f' (as {vals})' if vals else ''}: {h}")
         ctx.case(key + ("rej",), False, sample=case)
         if drv and not valid:
             a = drv.ask(line + "-")
@@ -592,10 +866,12 @@ def check_scale_free(ctx, drv, case, secs=8.0):
         return
     if len(nodes) != n or nodes != list(range(n)):
         ctx.violation(case, f"{len(nodes)} nodes {nodes}, requested {n}")
-    for s, c in ebs.items():
+    for i, (s, c) in enumerate(ebs.items()):
         k = sum(1 for e in edges if len(e) == s)
         if k != c:
-            ctx.violation(case, f"{k} distinct hyperedges of size {s}, requested {c}")
+            asked = vals.get(f"counts.{i}")
+            ctx.violation(case, f"{k} distinct hyperedges of size {s}, requested {c}"
+                                + (f" (= int() of the requested {mk_val(asked)!r})" if asked else ""))
     for e in edges:
         if len(e) not in ebs or not edge_ok(e, n):
             ctx.violation(case, f"hyperedge {e}: size not requested, repeated nodes or nodes outside 0..{n-1}")
@@ -603,13 +879,16 @@ def check_scale_free(ctx, drv, case, secs=8.0):
     for (src, name, a, k, r) in log:
         if (src, name) == ("np", "exponential"):
             groups.append([])
-        elif (src, name) == ("np", "choice") and not isinstance(a[0], (int, np.integer)) and groups:
+        elif (src, name) == ("np", "choice") and not isinstance(a[0], (int, np.integer)) \
+                and not (isinstance(a[0], np.ndarray) and a[0].ndim == 0) and groups:
             groups[-1].append(r)
     bad = unexpected_sources(log, {("np", "exponential"), ("np", "choice")})
     ctx.case(key + (repr(groups),), len(edges) >= 2, sample=case)
     ctx.count("scale_free_cases")
     ctx.count("scale_free_defaults", 0 if kw else 1)
     ctx.count("scale_free_scale_keys_in_other_order", 1 if list(skeys) != list(sizes) else 0)
+    ctx.count("retyped_scale_free", 1 if vals else 0)
+    ctx.count("scale_free_count_not_an_int", 1 if any(vals.get(f"counts.{i}", ["py"])[0] not in INTLIKE for i in range(len(sizes))) else 0)
     if drv is None:
         return
     if bad:
@@ -618,7 +897,7 @@ def check_scale_free(ctx, drv, case, secs=8.0):
                      hgxv.enc_list([0] * len(edges))]) + " ret 1"
     a = drv.ask(line + hgxv.enc_listss(groups))
     if a != want:
-        ctx.disagree(case, f"scalefree: model {a!r}, implementation {want!r}")
+        ctx.disagree(case, f"{line.split()[0]}: model {a!r}, implementation {want!r}")
 
 
 def gen_scale_free(rng, malformed=False):
@@ -636,6 +915,12 @@ def gen_scale_free(rng, malformed=False):
         counts = [rng.randint(math.comb(n, s) // 2, min(max(math.comb(n, s) // 2, (17 * math.comb(n, s)) // 20), 21))
                   for s in sizes]
         near_sat = True
+    if rng.random() < 0.02:
+        # SIZE: a large request, far from saturation
+        n = rng.randint(30, 90)
+        sizes = rng.sample([1, 2, 3, 4, 6], rng.randint(1, 3))
+        counts = [rng.randint(5, min(60, math.comb(n, s_) // 3)) for s_ in sizes]
+        near_sat = False
     scales = [rng.choice([0.5, 1.0, 2.0, 3.5]) for _ in sizes]
     skeys = list(sizes)
     if rng.random() < 0.5:
@@ -710,6 +995,19 @@ def mk_vector(v16, kind, perm_seed=0):
         return {i: fl[i] for i in idx}
     if kind == "frac":
         return list(vals)
+    if kind == "bool01" and all(a in (0, 1) for a in vals):
+        return [bool(a) for a in vals]                      # True > random() always, False never
+    if kind == "dec":
+        import decimal
+        return [decimal.Decimal(a.numerator) / decimal.Decimal(a.denominator) for a in vals]   # sixteenths: exact
+    if kind == "np64s":
+        return [np.float64(a) for a in fl]                  # a list of numpy scalars
+    if kind == "mixed":
+        import decimal
+        r = random.Random(perm_seed)
+        return [r.choice([float, np.float64, lambda a: Fraction(a), lambda a: decimal.Decimal(a),
+                          lambda a: int(a) if a in (0, 1) else float(a), lambda a: bool(a) if a in (0, 1) else float(a)])(a)
+                for a in fl]
     return fl
 
 
@@ -717,32 +1015,37 @@ def check_hoad(ctx, drv, case, secs=8.0):
     from hypergraphx.generation.activity_driven import HOADmodel
     N, orders, time = case["N"], case["orders"], case["time"]
     kinds = case.get("kinds", {})
+    vals = case.get("vals") or {}
+    type_rej = bool(case.get("type_rej"))
     vkinds = kinds.get("vec", ["list"] * len(orders))
     acts = [[Fraction(a, 16) for a in v] for v in case["acts16"]]
     t_eff = 100 if time is None else time           # time=None: the default of the routine
 
     def call():
         # the activity vectors may be LONGER than N (the routine reads the entries 0..N-1 only) or shorter (IndexError)
-        apo = mk_map([(mk_int(o, kinds.get("key")), mk_vector(v, vk, case["ambient"][0]))
-                      for o, v, vk in zip(orders, case["acts16"], vkinds)], kinds.get("map"))
-        nn = mk_int(N, kinds.get("n"))
+        apo = mk_map([(slot_val(case, f"orders.{i}", lambda o=o: mk_int(o, kinds.get("key"))),
+                       mk_vector(v, vk, case["ambient"][0]))
+                      for i, (o, v, vk) in enumerate(zip(orders, case["acts16"], vkinds))], kinds.get("map"))
+        nn = slot_val(case, "N", lambda: mk_int(N, kinds.get("n")))
         if time is None:
             return HOADmodel(nn, apo)
+        tt = slot_val(case, "time", lambda: mk_int(time, kinds.get("time")))
         if kinds.get("positional"):
-            return HOADmodel(nn, apo, mk_int(time, kinds.get("time")))
-        return HOADmodel(nn, apo, time=mk_int(time, kinds.get("time")))
+            return HOADmodel(nn, apo, tt)
+        return HOADmodel(nn, apo, time=tt)
 
     ambient(*case["ambient"])
     with recorder() as rec:
         st, T = limited(call, secs)
     log = rec.log
-    # admissible: every vector has at least N entries, every order is at most N
-    valid = all(len(v) >= N for v in acts) and all(o <= N for o in orders)
-    key = ("hoad", N, tuple(orders), time, repr(case["acts16"]), repr(sorted(kinds.items(), key=repr)))
+    # admissible: every vector has at least N entries, every order is at most N, every number is of a type the routine
+    # takes (an index: int / numpy int / bool)
+    valid = all(len(v) >= N for v in acts) and all(o <= N for o in orders) and not type_rej
+    key = ("hoad", N, tuple(orders), time, repr(case["acts16"]), repr(sorted(kinds.items(), key=repr)), repr(sorted(vals.items())))
     if st == "timeout":
         return "timeout"
     if st != "ok" and valid:
-        ctx.violation(case, f"HOADmodel raised on admissible arguments: {T}")
+        ctx.violation(case, f"HOADmodel raised on admissible arguments{f' (as {vals})' if vals else ''}: {T}")
         return
     recs = []
     if st == "ok":
@@ -772,20 +1075,26 @@ def check_hoad(ctx, drv, case, secs=8.0):
     ctx.count("hoad_activations", emitted)
     ctx.count("hoad_longer_vectors", 1 if any(len(v) > N for v in acts) else 0)
     ctx.count("hoad_raised", 1 if st != "ok" else 0)
+    ctx.count("retyped_hoad", 1 if vals else 0)
     if drv is None:
         return
     if not okpat:
         ctx.disagree(case, "draw pattern is not (random.random() [random.sample])*: "
                      + repr(sorted(set((s, nm) for (s, nm, a, k, r) in log))))
     want = hgxv.enc_lists(sorted([t] + list(e) for t, e in recs)) if st == "ok" else "raised"
-    a = drv.ask(f"hoad {N} {t_eff} {hgxv.enc_list(orders)} {hgxv.enc_lists(acts)} {hgxv.enc_list([e[0] for e in entries])} "
-                f"{hgxv.enc_list([e[1] for e in entries])} {hgxv.enc_lists([e[2] for e in entries])}")
+    tail = (f"{hgxv.enc_lists(acts)} {hgxv.enc_list([e[0] for e in entries])} "
+            f"{hgxv.enc_list([e[1] for e in entries])} {hgxv.enc_lists([e[2] for e in entries])}")
+    if vals:
+        cmd = f"hoadR {slot_tok(case, 'N', N)} {slot_tok(case, 'time', t_eff)} {toks(case, 'orders', orders)} "
+    else:
+        cmd = f"hoad {N} {t_eff} {hgxv.enc_list(orders)} "
+    a = drv.ask(cmd + tail)
     if a != want:
-        ctx.disagree(case, f"hoad: model {a[:300]!r}, implementation {want[:300]!r}"
+        ctx.disagree(case, f"{cmd.split()[0]}: model {a[:300]!r}, implementation {want[:300]!r}"
                            + (f" ({T})" if st != "ok" else ""))
 
 
-VEC_KINDS = ["list", "list", "list01", "tuple", "np64", "np64", "npint", "dict", "frac"]
+VEC_KINDS = ["list", "list", "list01", "tuple", "np64", "np64", "npint", "dict", "frac", "bool01", "dec", "np64s", "mixed"]
 
 
 def gen_hoad(rng):
@@ -837,15 +1146,25 @@ def check_add(ctx, drv, case, secs=8.0):
     before_inc = incidence_view(hg)
     kw0 = dict(case["kwargs"])
     kinds = case.get("kinds", {})
+    vals = case.get("vals") or {}
     many = case["k"] is not None
+    # (the number of hyperedges to add is the number of passes of `while len(edges) < num_edges`: 2.5 -> 3; the model
+    # receives the object itself)
+    seed_obj = slot_val(case, "seed", lambda: kw0.get("seed"))
+    seed_rej = seed_refused(seed_obj, "py")
+    type_rej = bool(case.get("type_rej")) or seed_rej
 
     def call():
         kw = dict(kw0)
         for name in ("order", "size"):
             if name in kw:
-                kw[name] = mk_int(kw[name], kinds.get("size"))
+                kw[name] = slot_val(case, name, lambda: mk_int(kw[name], kinds.get("size")))
+        if "seed" in kw:
+            kw["seed"] = slot_val(case, "seed", lambda: kw["seed"])
+        if "inplace" in kw:
+            kw["inplace"] = slot_val(case, "inplace", lambda: kw["inplace"])
         if many:
-            return add_random_edges(hg, mk_int(case["k"], kinds.get("k")), **kw)
+            return add_random_edges(hg, slot_val(case, "k", lambda: mk_int(case["k"], kinds.get("k"))), **kw)
         return add_random_edge(hg, **kw)
 
     kw = kw0
@@ -855,21 +1174,32 @@ def check_add(ctx, drv, case, secs=8.0):
     log = rec.log
     order, size, inplace = kw.get("order"), kw.get("size"), kw.get("inplace", True)
     s = size if size is not None else (order + 1 if order is not None else None)
-    valid = case["valid"]
+    valid = case["valid"] and not type_rej
     what = "add_random_edges" if many else "add_random_edge"
-    cmd = (f"addedges {int(inplace)} {case['k']} {opt(order)} {opt(size)} " if many
-           else f"addedge {int(inplace)} {opt(order)} {opt(size)} ")
-    key = ("add", repr(spec), case["k"], repr(sorted(kw.items(), key=repr)), repr(sorted(kinds.items())), repr(case.get("prefix")))
+    if vals:
+        # the model receives the objects as the caller holds them
+        otok = "-" if order is None else slot_tok(case, "order", order)
+        stok = "-" if size is None else slot_tok(case, "size", size)
+        cmd = (f"addedgesR {int(inplace)} {slot_tok(case, 'k', case['k'])} {otok} {stok} " if many
+               else f"addedgeR {int(inplace)} {otok} {stok} ")
+    else:
+        cmd = (f"addedges {int(inplace)} {case['k']} {opt(order)} {opt(size)} " if many
+               else f"addedge {int(inplace)} {opt(order)} {opt(size)} ")
+    key = ("add", repr(spec), case["k"], repr(sorted(kw.items(), key=repr)), repr(sorted(kinds.items())), repr(case.get("prefix")),
+           repr(sorted(vals.items())))
     if st == "timeout":
         return "timeout"
     if st == "exc":
         if valid:
-            ctx.violation(case, f"{what} raised on admissible arguments: {ret}")
+            ctx.violation(case, f"{what} raised on admissible arguments{f' (as {vals})' if vals else ''}: {ret}")
         ctx.case(key + ("rej",), False, sample=case)
-        if drv and not valid:
+        if drv and not valid and not seed_rej:
             a = drv.batch([load_line(before), cmd + "-"])[1]
             if not a.startswith("rej"):
                 ctx.disagree(case, f"implementation rejects, model answers {a!r}")
+        return
+    if seed_rej:
+        ctx.disagree(case, f"random.seed refuses a seed of this type, the implementation accepted {seed_obj!r}")
         return
     if not valid:
         if drv:
@@ -918,13 +1248,14 @@ def check_add(ctx, drv, case, secs=8.0):
     bad = unexpected_sources(log, {("py", "sample"), ("py", "seed")})
     ctx.case(key + (repr(draws),), changed, sample=case)
     ctx.count("add_cases")
+    ctx.count("retyped_add", 1 if vals else 0)
     ctx.count("labels_" + spec.get("label_kind", "int"))
     if drv is not None:
         if bad:
             ctx.disagree(case, f"draws from sources the model does not use: {sorted(set(bad))}")
-        sd = kw.get("seed")
-        if seed_calls(log, "py") != ([(sd,)] if sd is not None else []):
-            ctx.disagree(case, f"random.seed calls {seed_calls(log, 'py')} for seed={sd}")
+        sd = seed_obj
+        if [(type(a[0]), a) for a in seed_calls(log, "py")] != ([(type(sd), (sd,))] if sd is not None else []):
+            ctx.disagree(case, f"random.seed calls {seed_calls(log, 'py')} for seed={sd!r}")
         want = call_result(hg, ret, rank)
         if many:
             a, o = drv.batch([load_line(before), cmd + hgxv.enc_lists(draws), f"obj 0 {int(inplace)}"])[1:]
@@ -948,6 +1279,8 @@ def gen_add(rng, malformed=False):
     many = rng.random() < 0.55
     s = rng.randint(1, max(1, min(n, 4)))
     kw = {"size": s} if rng.random() < 0.5 else {"order": s - 1}
+    if not malformed and rng.random() < 0.05:
+        s, kw = 0, {"size": 0}           # the boundary size 0: the empty hyperedge
     if rng.random() < 0.7:
         kw["inplace"] = rng.random() < 0.5
     if rng.random() < 0.5:
@@ -991,22 +1324,36 @@ def check_shuffle(ctx, drv, case, secs=8.0):
     before_inc = incidence_view(hg)
     kw = dict(case["kwargs"])
     kinds = case.get("kinds", {})
+    vals = case.get("vals") or {}
     pn, pd = case["p"]
     allo = case["all_orders"]
     if case.get("p_given", True):
         kw["p"] = float(pn / pd) if case.get("p_float") else pfloat(pn, pd)
+    if "p" in vals and exact(vals["p"]) is not None:
+        # p as a Fraction / Decimal / numpy scalar / bool: `0 <= p <= 1` and int(p * m) work on its exact value
+        fr = exact(vals["p"])
+        pn, pd = fr.numerator, fr.denominator
+    seed_obj = slot_val(case, "seed", lambda: kw.get("seed"))
     sizes_order = [int(x) for x in set(hg.get_sizes())]
+    # np.random.seed: integers in [0, 2**32) only (random_shuffle_all_orders seeds once per size: never without hyperedges)
+    seed_rej = seed_refused(seed_obj, "np") and (not allo or bool(sizes_order))
+    type_rej = (bool(case.get("type_rej")) and not (allo and not sizes_order and "seed" in vals and len(vals) == 1)) or seed_rej
     cur_by_size = {s: [tuple(sorted(rank[norm(x)] for x in e)) for e in hg.get_edges(size=s)] for s in sizes_order}
 
     def call():
         k2 = dict(kw)
         for name in ("order", "size"):
             if name in k2:
-                k2[name] = mk_int(k2[name], kinds.get("size"))
+                k2[name] = slot_val(case, name, lambda: mk_int(k2[name], kinds.get("size")))
         if "p" in k2 and kinds.get("p") in ("np64f", "np32f"):
             k2["p"] = mk_float(k2["p"], kinds.get("p"))         # dyadic: exact in float32 too
+        if "p" in vals:
+            k2["p"] = mk_val(vals["p"])
         if "seed" in k2:
-            k2["seed"] = mk_int(k2["seed"], kinds.get("seed"))
+            k2["seed"] = slot_val(case, "seed", lambda: mk_int(k2["seed"], kinds.get("seed")))
+        for name in ("inplace", "preserve_degree"):
+            if name in k2:
+                k2[name] = slot_val(case, name, lambda: k2[name])
         if allo:
             return random_shuffle_all_orders(hg, **k2)
         return random_shuffle(hg, **k2)
@@ -1018,19 +1365,28 @@ def check_shuffle(ctx, drv, case, secs=8.0):
     log = rec.log
     order, size, inplace = kw.get("order"), kw.get("size"), kw.get("inplace", True)
     pres = kw.get("preserve_degree", False)
-    valid = case["valid"]
+    valid = case["valid"] and not type_rej
     if allo:
         cmd = f"shuffleall {int(inplace)} {pn} {pd} {hgxv.enc_list(sizes_order)} "
+    elif "p" in vals:
+        cmd = f"shuffleR {int(inplace)} {opt(order)} {opt(size)} {num_tok(vals['p'])} {int(pres)} "
     else:
         cmd = f"shuffle {int(inplace)} {opt(order)} {opt(size)} {pn} {pd} {int(pres)} "
-    key = ("shuffle", allo, repr(spec), repr(sorted(kw.items(), key=repr)), repr(sorted(kinds.items())), repr(case.get("prefix")))
+    key = ("shuffle", allo, repr(spec), repr(sorted(kw.items(), key=repr)), repr(sorted(kinds.items())), repr(case.get("prefix")),
+           repr(sorted(vals.items())))
     if st == "timeout":
         return "timeout"
+    if seed_rej:
+        if st != "exc":
+            ctx.disagree(case, f"np.random.seed refuses this seed, the implementation accepted {seed_obj!r}")
+        ctx.case(key + (st,), False, sample=case)
+        return
     if st == "exc" or not valid:
         if valid:
-            ctx.violation(case, f"random_shuffle{'_all_orders' if allo else ''} raised on admissible arguments: {ret}")
+            ctx.violation(case, f"random_shuffle{'_all_orders' if allo else ''} raised on admissible arguments"
+                                f"{f' (as {vals})' if vals else ''}: {ret}")
         ctx.case(key + (st,), False, sample=case)
-        if drv and not valid:
+        if drv and not valid and not (allo and "p" in vals and exact(vals["p"]) is None):
             a = drv.batch([load_line(before), cmd + "- -"])[1]
             if a.startswith("rej") != (st == "exc"):
                 ctx.disagree(case, f"implementation {'rejects' if st == 'exc' else 'accepts'}, model answers {a[:80]!r}")
@@ -1103,6 +1459,7 @@ def check_shuffle(ctx, drv, case, secs=8.0):
     ctx.case(key + (repr([(p["idx"], p["choices"]) for p in parts]),), nontrivial, sample=case)
     ctx.count("shuffle_cases")
     ctx.count("shuffle_p0", 1 if pn == 0 else 0)
+    ctx.count("retyped_shuffle", 1 if vals else 0)
     ctx.count("labels_" + spec.get("label_kind", "int"))
     if drv is not None:
         shuffle_correspondence(ctx, drv, case, hg, ret, rank, before, log, parts, okpat, cmd, kw, allo, inplace,
@@ -1159,7 +1516,33 @@ def shuffle_correspondence(ctx, drv, case, hg, ret, rank, before, log, parts, ok
             break
 
 
+def gen_dense(rng):
+    """MANY hyperedges of one size (22 / 23 / 26 pairs on 8-9 nodes) plus a few triples: int(p * m) for p = a/m is
+    exact only when p is not pushed through a float (15/22 * 22, 13/23 * 23, 15/26 * 26 are 14.999.., 12.99.., 14.99..
+    in floats)"""
+    n = rng.choice([8, 9, 9])
+    m = rng.choice([22, 23, 26])
+    labels = sorted(rng.sample(range(0, 30), n))
+    weighted = rng.random() < 0.5
+    pairs = rng.sample(list(itertools.combinations(labels, 2)), m)
+    triples = rng.sample(list(itertools.combinations(labels, 3)), rng.randint(0, 3))
+    edges = [(list(e), rng.randint(1, 9) if weighted else 1, rng.choice([0, 0, 1, 2])) for e in pairs + triples]
+    rng.shuffle(edges)
+    return {"labels": labels, "weighted": weighted, "edges": edges, "node_md": {}, "label_kind": "int"}, m
+
+
 def gen_shuffle(rng, malformed=False):
+    if not malformed and rng.random() < 0.03:
+        spec, m = gen_dense(rng)
+        allo = rng.random() < 0.25
+        a, b = rng.choice([{22: (15, 22), 23: (13, 23), 26: (15, 26)}[m], (rng.randint(0, m), m), (rng.randint(1, m - 1), m)])
+        fr = Fraction(a, b)
+        kw = {} if allo else rng.choice([{"size": 2}, {"order": 1}])
+        kw["inplace"] = rng.random() < 0.5
+        return {"routine": "shuffle", "hg": spec, "all_orders": allo, "kwargs": kw, "p": [fr.numerator, fr.denominator],
+                "valid": True, "p_given": True, "p_float": True, "kinds": {}, "prefix": [], "dense": True,
+                "vals": {"p": ["frac", fr.numerator, fr.denominator]},
+                "ambient": [rng.randint(0, 10 ** 6), rng.randint(0, 10 ** 6)]}
     spec = gen_hg(rng, shuffle_like=True)
     allo = rng.random() < 0.3
     sizes = sorted(set(len(e[0]) for e in spec["edges"])) or [2]
@@ -1195,6 +1578,182 @@ def gen_shuffle(rng, malformed=False):
 
 # ------------------------------------------------------------------------------------------------
 
+# ---- retyping: the same request, some arguments handed in as objects of another VALUE TYPE ---------------------------
+
+PY_SEEDS = [["float", 1.5], ["float", 0.0], ["float", -2.25], ["float", 1e100], ["np64f", 3.7], ["str", "abc"], ["str", "3"],
+            ["str", ""], ["bytes", "k"], ["bool", 1], ["bool", 0], ["py", 2 ** 70 + 1], ["py", -5]]
+PY_SEEDS_REFUSED = [["np64", 3], ["np32", 0], ["npu8", 7], ["frac", 3, 1], ["npbool", 1], ["np32f", 3.0], ["dec", "3"]]
+NP_SEEDS = [["bool", 1], ["bool", 0], ["np64", 5], ["npu8", 200], ["py", 2 ** 32 - 1], ["arr0", 12]]
+NP_SEEDS_REFUSED = [["float", 3.0], ["py", -1], ["py", 2 ** 32], ["str", "3"], ["np64f", 2.0], ["frac", 3, 1], ["np64", -1]]
+TRUTHY = ["True", "1", "np1", "yes", "2.5", "list"]
+FALSY = ["False", "0", "np0", "empty", "none", "0.0", "nolist"]
+
+
+def truth(rng, b):
+    return ["truth", rng.choice(TRUTHY if b else FALSY)]
+
+
+def choose_slots(rng, slots):
+    return rng.sample(slots, min(len(slots), rng.choice([1, 1, 2, 3])))
+
+
+def retype_random(rng, case):
+    n, sizes, counts = case["n"], case["sizes"], case["counts"]
+    slots = ["n"] + [f"sizes.{i}" for i in range(len(sizes))] + [f"counts.{i}" for i in range(len(counts))] * 2 + ["seed"]
+    chosen = list(dict.fromkeys(choose_slots(rng, slots)))
+    rej = chosen[0] if rng.random() < 0.15 else None
+    vals = {}
+    for slot in chosen:
+        if slot == "seed":
+            vals[slot] = rng.choice(PY_SEEDS_REFUSED if slot == rej else PY_SEEDS)
+        elif slot == "n":
+            vals[slot] = pick_val(rng, "index", n, rej=(slot == rej))
+        elif slot.startswith("sizes."):
+            vals[slot] = pick_val(rng, "index", sizes[int(slot[6:])], rej=(slot == rej), key=True)
+        else:
+            vals[slot] = pick_val(rng, "loop", counts[int(slot[7:])], rej=(slot == rej))
+    return finish_retype(case, vals, rej)
+
+
+def finish_retype(case, vals, rej):
+    vals = {k: v for k, v in vals.items() if v is not None}
+    if not vals:
+        return case
+    case["vals"] = vals
+    if rej in vals:
+        case["type_rej"] = True
+    return case
+
+
+def retype_scale_free(rng, case):
+    n, sizes, counts, skeys = case["n"], case["sizes"], case["counts"], case["scale_keys"]
+    kw = case["kwargs"]
+    slots = (["n"] + [f"sizes.{i}" for i in range(len(sizes))] + [f"counts.{i}" for i in range(len(counts))] * 3
+             + [f"skeys.{j}" for j in range(len(skeys))] + [f"scales.{j}" for j in range(len(skeys))])
+    slots += [x for x, name in (("target", "corr_target"), ("shuffles", "num_shuffles"), ("correlated", "correlated"))
+              if kw.get(name) is not None]
+    chosen = list(dict.fromkeys(choose_slots(rng, slots)))
+    rej = chosen[0] if rng.random() < 0.15 else None
+    vals = {}
+    for slot in chosen:
+        if slot == "n":
+            vals[slot] = pick_val(rng, "npsize", n, rej=(slot == rej))
+        elif slot.startswith("sizes."):
+            vals[slot] = pick_val(rng, "npsize", sizes[int(slot[6:])], rej=(slot == rej), key=True)
+        elif slot.startswith("counts."):
+            vals[slot] = pick_val(rng, "intconv", counts[int(slot[7:])], rej=(slot == rej))
+        elif slot.startswith("skeys."):
+            vals[slot] = pick_val(rng, "samekey", skeys[int(slot[6:])], key=True)     # only compared with the other map's keys
+        elif slot.startswith("scales."):
+            v = Fraction(case["scales"][int(slot[7:])])                                 # 0.5, 1, 2, 3.5
+            vals[slot] = rng.choice([["frac", v.numerator, v.denominator], ["dec", str(float(v))], ["np64f", float(v)]]
+                                    + ([["bool", 1], ["npbool", 1], ["py", 1]] if v == 1 else []))
+        elif slot == "target":
+            v = Fraction(kw["corr_target"])                                             # 0, 1/4, 1/2, 3/4, 1
+            vals[slot] = rng.choice([["frac", v.numerator, v.denominator], ["dec", str(float(v))], ["np64f", float(v)],
+                                     ["np32f", float(v)]] + ([["bool", int(v)], ["npbool", int(v)]] if v in (0, 1) else []))
+        elif slot == "shuffles":
+            if kw.get("correlated", True):
+                vals[slot] = pick_val(rng, "index", kw["num_shuffles"], rej=(slot == rej))
+            else:
+                # uncorrelated: num_shuffles is only compared with 0 (it must be 0) and never handed to range()
+                vals[slot] = rng.choice([["float", 0.0], ["float", -0.0], ["bool", 0], ["frac", 0, 1], ["np64", 0], ["npbool", 0]])
+        elif slot == "correlated":
+            vals[slot] = truth(rng, kw["correlated"])
+    if rej is not None and rej not in ("n", "shuffles") and not rej.startswith(("sizes.", "counts.")):
+        rej = None
+    if rej == "shuffles" and not kw.get("correlated", True):
+        rej = None
+    return finish_retype(case, vals, rej)
+
+
+def retype_hoad(rng, case):
+    N, orders, time = case["N"], case["orders"], case["time"]
+    slots = ["N"] + ([] if time is None else ["time"]) + [f"orders.{i}" for i in range(len(orders))]
+    chosen = list(dict.fromkeys(choose_slots(rng, slots)))
+    rej = chosen[0] if rng.random() < 0.2 else None
+    vals = {}
+    for slot in chosen:
+        c = N if slot == "N" else (time if slot == "time" else orders[int(slot[7:])])
+        vals[slot] = pick_val(rng, "index", c, rej=(slot == rej), key=slot.startswith("orders."))
+    return finish_retype(case, vals, rej)
+
+
+def retype_add(rng, case):
+    kw = case["kwargs"]
+    slots = (["k", "k"] if case["k"] is not None else []) + [x for x in ("size", "order", "seed", "inplace") if x in kw]
+    chosen = list(dict.fromkeys(choose_slots(rng, slots)))
+    rej = chosen[0] if rng.random() < 0.15 else None
+    vals = {}
+    for slot in chosen:
+        if slot == "k":
+            vals[slot] = pick_val(rng, "loop", case["k"], rej=(slot == rej))
+        elif slot in ("size", "order"):
+            vals[slot] = pick_val(rng, "index", kw[slot], rej=(slot == rej), key=True)   # random.sample(nodes, k): [None] * k
+            if slot == "order" and vals[slot][0] == "npbool":
+                vals[slot] = ["frac", kw[slot], 1]       # np.True_ + 1 is the integer 2: accepted, unlike Fraction(1) + 1
+        elif slot == "seed":
+            vals[slot] = rng.choice(PY_SEEDS_REFUSED if slot == rej else PY_SEEDS)
+        else:
+            vals[slot] = truth(rng, kw["inplace"])
+    if rej == "inplace":
+        rej = None
+    return finish_retype(case, vals, rej)
+
+
+def retype_shuffle(rng, case):
+    kw = case["kwargs"]
+    slots = (["p", "p"] if case.get("p_given", True) else []) + [x for x in ("seed", "inplace", "preserve_degree", "order") if x in kw]
+    if not slots:
+        return case
+    chosen = list(dict.fromkeys(choose_slots(rng, slots)))
+    rej = chosen[0] if rng.random() < 0.12 else None
+    vals = {}
+    for slot in chosen:
+        if slot == "p":
+            if slot == rej and not case["all_orders"]:
+                vals[slot] = rng.choice([["str", "0.5"], ["str", "1"], ["bytes", "1"]])
+            else:
+                rej = None if slot == rej else rej
+                # any rational p is exact as a Fraction / Decimal; dyadic ones also as numpy scalars
+                v = rng.choice([Fraction(1, 3), Fraction(2, 3), Fraction(1, 5), Fraction(3, 10), Fraction(7, 10), Fraction(29, 100),
+                                Fraction(9, 10), Fraction(1, 7), Fraction(0), Fraction(1), Fraction(1, 2), Fraction(1, 4)])
+                tgt = kw.get("size", kw.get("order", 0) + 1)
+                m = sum(1 for e in case["hg"]["edges"] if len(e[0]) == tgt)
+                if m >= 2 and rng.random() < 0.3:
+                    v = Fraction(rng.randint(1, m - 1), m)          # p * m is an integer: the boundary of int(p * m)
+                opts = [["frac", v.numerator, v.denominator], ["frac", v.numerator, v.denominator]]
+                if v.denominator in (1, 2, 4, 5, 10, 100):
+                    opts.append(["dec", str(v.numerator / v.denominator)])
+                if v.denominator in (1, 2, 4):
+                    opts += [["np64f", float(v)], ["np32f", float(v)]]
+                if v in (0, 1):
+                    opts += [["bool", int(v)], ["npbool", int(v)], ["np64", int(v)], ["arr0", int(v)]]
+                vals[slot] = rng.choice(opts)
+                case["p"] = [v.numerator, v.denominator]
+        elif slot == "seed":
+            if slot == rej:
+                vals[slot] = rng.choice(NP_SEEDS_REFUSED)
+            else:
+                vals[slot] = rng.choice(NP_SEEDS)
+                kw["seed"] = int(vals[slot][1])
+        elif slot == "order":
+            if kw["order"] in (0, 1) and rng.random() < 0.7:
+                vals[slot] = ["bool", kw["order"]]          # order=True -> size = True + 1 = 2
+            else:
+                vals[slot] = pick_val(rng, "index", kw["order"], key=True)
+                if vals[slot][0] == "bool":
+                    vals[slot] = ["py", kw["order"]]
+        else:
+            vals[slot] = truth(rng, kw[slot])
+    if rej not in ("p", "seed"):
+        rej = None
+    return finish_retype(case, vals, rej)
+
+
+RETYPE = {"random": retype_random, "scale_free": retype_scale_free, "hoad": retype_hoad, "add": retype_add,
+          "shuffle": retype_shuffle}
+
 CHECKS = {"random": check_random, "scale_free": check_scale_free, "hoad": check_hoad, "add": check_add,
           "shuffle": check_shuffle}
 GENS = {"random": gen_random, "scale_free": gen_scale_free, "hoad": gen_hoad, "add": gen_add, "shuffle": gen_shuffle}
@@ -1222,6 +1781,15 @@ def fixed_cases():
                "p": [1, 1], "valid": True, "p_given": True, "p_float": True, "ambient": amb}
     # an activity vector that describes more individuals than the N simulated ones (the surplus is never read)
     yield {"routine": "hoad", "N": 3, "orders": [1], "acts16": [[12, 12, 4, 16, 16]], "time": 3, "ambient": amb}
+    # requested numbers that are not ints: scale_free_hypergraph means int(count), the loops of random_hypergraph and
+    # add_random_edges run while len(..) < count
+    yield {"routine": "scale_free", "n": 12, "sizes": [2, 4], "counts": [3, 2], "scale_keys": [2, 4], "scales": [1.0, 1.0],
+           "kwargs": {"corr_target": 0.5}, "valid": True, "ambient": amb,
+           "vals": {"counts.0": ["float", 3.7], "counts.1": ["float", 2.2]}}
+    yield {"routine": "scale_free", "n": 12, "sizes": [2, 3], "counts": [4, 2], "scale_keys": [2, 3], "scales": [1.0, 1.0],
+           "kwargs": {}, "valid": True, "ambient": amb, "vals": {"counts.0": ["str", "4"], "counts.1": ["str", " 2 "]}}
+    yield {"routine": "random", "n": 6, "sizes": [2, 3], "counts": [3, 1], "seed": None, "uniform": False, "ambient": amb,
+           "vals": {"counts.0": ["float", 2.5], "counts.1": ["frac", 1, 3], "seed": ["float", 1.5]}}
 
 
 def attempt(ctx, drv, case, secs):
@@ -1267,6 +1835,9 @@ def run(ctx):
         r = routines[i % len(routines)]
         malformed = r != "hoad" and ctx.rng.random() < 0.12
         case = GENS[r](ctx.rng, malformed) if r != "hoad" else GENS[r](ctx.rng)
+        if not malformed and case.get("valid", True) and "vals" not in case and ctx.rng.random() < 0.3:
+            # the same request with some arguments handed in as objects of another value type
+            case = RETYPE[r](ctx.rng, case)
         run_case(ctx, drv, case)
         if ctx.extra.get("nonreturning_call") or (ctx.time_left() is not None and ctx.time_left() < 8):
             break
